@@ -41,9 +41,12 @@ def main():
     seed = os.path.join(wt, "_seeded")
     meta = json.load(open(os.path.join(seed, "meta.json")))
     res = {"confirmed": False}
+    cached = os.path.join(seed, "confirm.json")  # written by an earlier run with SEEDCHECK_PHASE=confirm (lets confirmations run in parallel)
     sh("git checkout -- . && git clean -fdq -e _seeded", wt)
-    rc, out = sh("git apply --whitespace=nowarn _seeded/patch.diff", wt)
-    if rc != 0:
+    rc, out = sh("git apply --whitespace=nowarn _seeded/patch.diff", wt) if not os.path.exists(cached) else (0, "")
+    if os.path.exists(cached):
+        res = json.load(open(cached))
+    elif rc != 0:
         res["error"] = "patch does not apply: " + out[-500:]
     else:
         ok, bad, tail = suite_ok(wt)
@@ -67,6 +70,10 @@ def main():
                 pass
         res["confirmed"] = bool(ok and rc1 != 0 and rc2 == 0)
     sh("git checkout -- . && git clean -fdq -e _seeded", wt)
+    if os.environ.get("SEEDCHECK_PHASE") == "confirm":
+        json.dump(res, open(cached, "w"), indent=1)
+        print(json.dumps({"seed": sid, "confirmed": res["confirmed"], "res": {k: v for k, v in res.items() if k != "demo_output_with_patch"}}))
+        return
     dst = os.path.join("/verif/seeded", sid)
     os.makedirs(dst, exist_ok=True)
     shutil.copy(os.path.join(seed, "patch.diff"), os.path.join(dst, "patch.diff"))
